@@ -585,6 +585,28 @@ def cond_net(kind: int) -> str:
     ][kind]
 
 
+def switch_cond_nets():
+    """A module whose dynamics is conditioned by a BISTABLE (not source) controller: motif-avoidant while the controller is in one state, clean - with
+    different stable motifs - in the other.  (name, bnet); the first one is the instance that revealed the shape."""
+    controllers = {"switch": ("p, q; q, p", "p"), "toggle": ("p, !q; q, !p", "p"), "latch": ("p, p | q; q, !q & !p", "p"), "selfloop": ("p, p", "p")}
+    modules = {
+        "xnor": (["a1", "a2"], "(a1 & a2) | (!a1 & !a2)"),
+        "core": (["A", "B"], "(!A & !B) | C"),
+    }
+    offs = {"and": "{x} & {y}", "or": "{x} | {y}", "zero": "false", "copy": "{x}"}
+    out = []
+    for cname, (ctext, cv) in controllers.items():
+        for mname, (mv, mexpr) in modules.items():
+            for oname, off in offs.items():
+                for on_value in (1, 0):
+                    on, offlit = (cv, "!" + cv) if on_value else ("!" + cv, cv)
+                    rules = [(v, f"({offlit} & ({off.format(x=mv[0], y=mv[1])})) | ({on} & ({mexpr}))") for v in mv]
+                    if mname == "core":
+                        rules.append(("C", "A & B"))
+                    out.append((f"bcond_{cname}_{mname}_{oname}_{on_value}", norm(to_bnet(rules) + "\n" + norm(ctext))))
+    return out
+
+
 def block_nets(seed: int, tier: str):
     """(name, bnet): MAA module -> downstream bistable module (all module pairs, both hook polarities), input-conditioned modules,
     the same with an independent extra module, then seeded compositions."""
@@ -600,6 +622,9 @@ def block_nets(seed: int, tier: str):
         yield from emit(k, v)
     for kind in range(8):
         yield from emit(f"cond{kind}", cond_net(kind))
+    sc = switch_cond_nets()
+    for name, b in sc[:6]:
+        yield from emit(name, b)
     for up in UP_MODULES:
         for down in DOWN_MODULES:
             for neg in (False, True):
@@ -608,6 +633,8 @@ def block_nets(seed: int, tier: str):
         for down in ("switch_or", "latch_or", "switch_and"):
             for extra_name, extra in (("switch", norm("M1, M2; M2, M1")), ("source", norm("s, s")), ("osc", norm("O, !O"))):
                 yield from emit(f"{up}__{down}+{extra_name}", block_net(up, down, False, extra))
+    for name, b in sc[6:]:
+        yield from emit(name, b)
     rng = random.Random(seed * 77 + 3)
     for i in range(60 if tier == "quick" else 600):
         up = rng.choice(list(UP_MODULES))
